@@ -14,3 +14,67 @@ package css_ast
 //@     ((a.NamespacePrefix == nil) == (b.NamespacePrefix == nil)) &&
 //@     (a.NamespacePrefix != nil && b.NamespacePrefix != nil ==>
 //@         a.NamespacePrefix.Text == b.NamespacePrefix.Text && a.NamespacePrefix.Kind == b.NamespacePrefix.Kind)
+
+// Per-node completeness: Equal implies the same node kind, equal scalar fields and equal child counts
+// (children are compared by TokensEqual/RulesEqual/ComplexSelectorsEqual/MediaQueriesEqual, whose own
+// contracts say that a true result implies equal lengths).
+//@ func TokensEqual
+//@   arith int
+//@   prop C12
+//@   modifies ast.Symbol.Link
+//@   ensures len: result ==> len(a) == len(b)
+//@ func RulesEqual
+//@   arith int
+//@   prop C12
+//@   modifies ast.Symbol.Link
+//@   ensures len: result ==> len(a) == len(b)
+//@ func ComplexSelectorsEqual
+//@   arith int
+//@   prop C12
+//@   modifies ast.Symbol.Link
+//@   ensures len: result ==> len(a) == len(b)
+//@ func MediaQueriesEqual
+//@   arith int
+//@   prop C12
+//@   modifies ast.Symbol.Link
+//@   ensures len: result ==> len(a) == len(b)
+
+//@ lemma Token_Equal_complete C12: forall a Token, b Token, check *CrossFileEqualityCheck :: a.Equal(b, check) ==>
+//@     a.Kind == b.Kind && a.Text == b.Text && a.Whitespace == b.Whitespace && ((a.Children == nil) == (b.Children == nil))
+
+//@ lemma RAtCharset_Equal_complete C12: forall a *RAtCharset, rule R, check *CrossFileEqualityCheck :: a != nil && a.Equal(rule, check) ==>
+//@     is(rule, *RAtCharset) && a.Encoding == rule.(*RAtCharset).Encoding
+//@ lemma RKnownAt_Equal_complete C12: forall a *RKnownAt, rule R, check *CrossFileEqualityCheck :: a != nil && a.Equal(rule, check) ==>
+//@     is(rule, *RKnownAt) && len(a.Prelude) == len(rule.(*RKnownAt).Prelude) && len(a.Rules) == len(rule.(*RKnownAt).Rules)
+//@ lemma RUnknownAt_Equal_complete C12: forall a *RUnknownAt, rule R, check *CrossFileEqualityCheck :: a != nil && a.Equal(rule, check) ==>
+//@     is(rule, *RUnknownAt) && len(a.Prelude) == len(rule.(*RUnknownAt).Prelude) && len(a.Block) == len(rule.(*RUnknownAt).Block)
+//@ lemma RSelector_Equal_complete C12: forall a *RSelector, rule R, check *CrossFileEqualityCheck :: a != nil && a.Equal(rule, check) ==>
+//@     is(rule, *RSelector) && len(a.Selectors) == len(rule.(*RSelector).Selectors) && len(a.Rules) == len(rule.(*RSelector).Rules)
+//@ lemma RQualified_Equal_complete C12: forall a *RQualified, rule R, check *CrossFileEqualityCheck :: a != nil && a.Equal(rule, check) ==>
+//@     is(rule, *RQualified) && len(a.Prelude) == len(rule.(*RQualified).Prelude) && len(a.Rules) == len(rule.(*RQualified).Rules)
+//@ lemma RDeclaration_Equal_complete C12: forall a *RDeclaration, rule R, check *CrossFileEqualityCheck :: a != nil && a.Equal(rule, check) ==>
+//@     is(rule, *RDeclaration) && a.KeyText == rule.(*RDeclaration).KeyText && a.Important == rule.(*RDeclaration).Important && len(a.Value) == len(rule.(*RDeclaration).Value)
+//@ lemma RBadDeclaration_Equal_complete C12: forall a *RBadDeclaration, rule R, check *CrossFileEqualityCheck :: a != nil && a.Equal(rule, check) ==>
+//@     is(rule, *RBadDeclaration) && len(a.Tokens) == len(rule.(*RBadDeclaration).Tokens)
+//@ lemma RComment_Equal_complete C12: forall a *RComment, rule R, check *CrossFileEqualityCheck :: a != nil && a.Equal(rule, check) ==>
+//@     is(rule, *RComment) && a.Text == rule.(*RComment).Text
+//@ lemma RAtMedia_Equal_complete C12: forall a *RAtMedia, rule R, check *CrossFileEqualityCheck :: a != nil && a.Equal(rule, check) ==>
+//@     is(rule, *RAtMedia) && len(a.Queries) == len(rule.(*RAtMedia).Queries) && len(a.Rules) == len(rule.(*RAtMedia).Rules)
+//@ lemma RAtScope_Equal_complete C12: forall a *RAtScope, rule R, check *CrossFileEqualityCheck :: a != nil && a.Equal(rule, check) ==>
+//@     is(rule, *RAtScope) && len(a.Start) == len(rule.(*RAtScope).Start) && len(a.End) == len(rule.(*RAtScope).End) && len(a.Rules) == len(rule.(*RAtScope).Rules)
+//@ lemma MQType_Equal_complete C12: forall a *MQType, query MQ, check *CrossFileEqualityCheck :: a != nil && a.Equal(query, check) ==>
+//@     is(query, *MQType) && a.Op == query.(*MQType).Op && a.Type == query.(*MQType).Type && ((a.AndOrNull.Data == nil) == (query.(*MQType).AndOrNull.Data == nil))
+//@ lemma MQBinary_Equal_complete C12: forall a *MQBinary, query MQ, check *CrossFileEqualityCheck :: a != nil && a.Equal(query, check) ==>
+//@     is(query, *MQBinary) && a.Op == query.(*MQBinary).Op && len(a.Terms) == len(query.(*MQBinary).Terms)
+//@ lemma MQArbitraryTokens_Equal_complete C12: forall a *MQArbitraryTokens, query MQ, check *CrossFileEqualityCheck :: a != nil && a.Equal(query, check) ==>
+//@     is(query, *MQArbitraryTokens) && len(a.Tokens) == len(query.(*MQArbitraryTokens).Tokens)
+//@ lemma MQPlainOrBoolean_Equal_complete C12: forall a *MQPlainOrBoolean, query MQ, check *CrossFileEqualityCheck :: a != nil && a.Equal(query, check) ==>
+//@     is(query, *MQPlainOrBoolean) && a.Name == query.(*MQPlainOrBoolean).Name && len(a.ValueOrNil) == len(query.(*MQPlainOrBoolean).ValueOrNil)
+//@ lemma MQRange_Equal_complete C12: forall a *MQRange, query MQ, check *CrossFileEqualityCheck :: a != nil && a.Equal(query, check) ==>
+//@     is(query, *MQRange) && a.BeforeCmp == query.(*MQRange).BeforeCmp && a.AfterCmp == query.(*MQRange).AfterCmp && a.Name == query.(*MQRange).Name && len(a.Before) == len(query.(*MQRange).Before) && len(a.After) == len(query.(*MQRange).After)
+//@ lemma SSAttribute_Equal_complete C12: forall a *SSAttribute, ss SS, check *CrossFileEqualityCheck :: a != nil && a.Equal(ss, check) ==>
+//@     is(ss, *SSAttribute) && a.MatcherOp == ss.(*SSAttribute).MatcherOp && a.MatcherValue == ss.(*SSAttribute).MatcherValue && a.MatcherModifier == ss.(*SSAttribute).MatcherModifier && a.NamespacedName.Name.Text == ss.(*SSAttribute).NamespacedName.Name.Text && ((a.NamespacedName.NamespacePrefix == nil) == (ss.(*SSAttribute).NamespacedName.NamespacePrefix == nil))
+//@ lemma SSPseudoClass_Equal_complete C12: forall a *SSPseudoClass, ss SS, check *CrossFileEqualityCheck :: a != nil && a.Equal(ss, check) ==>
+//@     is(ss, *SSPseudoClass) && a.Name == ss.(*SSPseudoClass).Name && a.IsElement == ss.(*SSPseudoClass).IsElement && len(a.Args) == len(ss.(*SSPseudoClass).Args)
+//@ lemma SSPseudoClassWithSelectorList_Equal_complete C12: forall a *SSPseudoClassWithSelectorList, ss SS, check *CrossFileEqualityCheck :: a != nil && a.Equal(ss, check) ==>
+//@     is(ss, *SSPseudoClassWithSelectorList) && a.Kind == ss.(*SSPseudoClassWithSelectorList).Kind && a.Index == ss.(*SSPseudoClassWithSelectorList).Index && len(a.Selectors) == len(ss.(*SSPseudoClassWithSelectorList).Selectors)
